@@ -53,7 +53,14 @@ def _simple_rsp(child, msgid="1001"):
     return X.CIM(X.MESSAGE(X.SIMPLERSP(child), msgid, "1.4"), "2.0", "2.0")
 
 
+def _export_rsp(child, msgid="1001"):
+    return X.CIM(X.MESSAGE(X.SIMPLEEXPRSP(child), msgid, "1.4"), "2.0", "2.0")
+
+
 def success_body(op, text):
+    if op == "ExportIndication":
+        return _export_rsp(X.EXPMETHODRESPONSE("ExportIndication")
+                           ).toxml().encode("utf-8")
     """A DTD-valid success reply for the operation; `text` is put into the
     string property values (non-ASCII multi-byte content)."""
     insts = [_inst(1, text), _inst(2, text + "2")]
@@ -123,6 +130,10 @@ def success_body(op, text):
 
 
 def error_body(op, text):
+    if op == "ExportIndication":
+        return _export_rsp(X.EXPMETHODRESPONSE(
+            "ExportIndication", X.ERROR("1", "failed: " + text))
+        ).toxml().encode("utf-8")
     mr = X.METHODRESPONSE if op == "InvokeMethod" else X.IMETHODRESPONSE
     name = "DoIt" if op == "InvokeMethod" else op
     return _simple_rsp(mr(name, X.ERROR("6", "not found: " + text))
@@ -263,6 +274,9 @@ OPS = {
         "VT_Thing", MaxObjectCount=10)),
     "InvokeMethod": lambda c: c.InvokeMethod(
         "DoIt", CIMClassName("VT_Thing", namespace=NS), InText=MULTI),
+    # the listener-directed operation
+    "ExportIndication": lambda c: c.ExportIndication(CIMInstance(
+        "VT_Alert", properties=[CIMProperty("msg", MULTI)])),
     # argument shapes of InvokeMethod: every way a value may be typed
     "InvokeMethod.dt": lambda c: c.InvokeMethod(
         "DoIt", CIMClassName("VT_Thing", namespace=NS),
@@ -353,9 +367,12 @@ class Observed:
     """A connection with one observer configuration; used for a short history
     of operations (so that the statistics counters form a history)."""
 
-    def __init__(self, cfg, workdir, idx):
+    def __init__(self, cfg, workdir, idx, conn=None):
         self.cfg = cfg
-        self.conn, self.ad = new_conn(cfg["stats"])
+        if conn is not None:
+            self.conn, self.ad = conn, None
+        else:
+            self.conn, self.ad = new_conn(cfg["stats"])
         self.logfile = os.path.join(workdir, "log%d.txt" % idx)
         self.recfile = os.path.join(workdir, "rec%d.yaml" % idx)
         self.recfp = None
@@ -388,6 +405,99 @@ class Observed:
         if self.recfp:
             self.recfp.close()
         reset_loggers()
+
+
+# ---------------------------------------------------------------------------
+# operations that run OTHER operations inside them: the mock's subscription
+# providers call conn.ReferenceNames() / EnumerateInstances() from within
+# CreateInstance / DeleteInstance (the observers see nested operations)
+# ---------------------------------------------------------------------------
+_NESTED_TEMPLATE = []
+
+
+def nested_server():
+    import copy
+    if not _NESTED_TEMPLATE:
+        import checks.c18 as c18
+        _NESTED_TEMPLATE.append(c18.server_template(1))
+    return copy.deepcopy(_NESTED_TEMPLATE[0])
+
+
+def run_nested_history(cfg, workdir, idx):
+    """CreateInstance / DeleteInstance of indication filters, destinations and
+    a subscription on a mock server with the subscription providers, observed
+    and bare."""
+    def filt(name):
+        return CIMInstance("CIM_IndicationFilter", properties=[
+            CIMProperty("Name", name),
+            CIMProperty("SourceNamespaces", ["root/cimv2"]),
+            CIMProperty("Query", "SELECT * FROM CIM_Indication"),
+            CIMProperty("QueryLanguage", "WQL"),
+            CIMProperty("IndividualSubscriptionSupported", True)])
+
+    def dest(name):
+        return CIMInstance("CIM_ListenerDestinationCIMXML", properties=[
+            CIMProperty("Name", name),
+            CIMProperty("Destination", "http://h:5000"),
+            CIMProperty("PersistenceType", pywbem.Uint16(2)),
+            CIMProperty("Protocol", pywbem.Uint16(2))])
+    bare = nested_server()
+    obsc = nested_server()
+    if cfg["stats"]:
+        obsc.statistics.enable()
+    ob = Observed(cfg, workdir, idx, conn=obsc)
+    st = {}
+
+    def script(c, key):
+        ns = "interop"
+        if key == "cf":
+            st[(id(c), "f")] = c.CreateInstance(filt("f1"), namespace=ns)
+            return st[(id(c), "f")]
+        if key == "cd":
+            st[(id(c), "d")] = c.CreateInstance(dest("d1"), namespace=ns)
+            return st[(id(c), "d")]
+        if key == "cs":
+            sub = CIMInstance("CIM_IndicationSubscription", properties=[
+                CIMProperty("Filter", st[(id(c), "f")],
+                            reference_class="CIM_IndicationFilter"),
+                CIMProperty("Handler", st[(id(c), "d")],
+                            reference_class="CIM_ListenerDestination")])
+            st[(id(c), "s")] = c.CreateInstance(sub, namespace=ns)
+            return st[(id(c), "s")]
+        if key == "df_inuse":      # refused: still referenced
+            return c.DeleteInstance(st[(id(c), "f")])
+        if key == "ds":
+            return c.DeleteInstance(st[(id(c), "s")])
+        if key == "df":
+            return c.DeleteInstance(st[(id(c), "f")])
+        if key == "dd":
+            return c.DeleteInstance(st[(id(c), "d")])
+        raise KeyError(key)
+    names = dict(cf="CreateInstance", cd="CreateInstance",
+                 cs="CreateInstance", df_inuse="DeleteInstance",
+                 ds="DeleteInstance", df="DeleteInstance",
+                 dd="DeleteInstance")
+    events, info = [], []
+    try:
+        for key in ("cf", "cd", "cs", "df_inuse", "ds", "df", "dd"):
+            b = outcome_of(lambda c: script(c, key), bare)
+            o = outcome_of(lambda c: script(c, key), obsc)
+            # created paths differ in the generated key values: compare kind
+            # and class of the outcome only
+            for x in (b, o):
+                if x.get("kind") == "value":
+                    x["val"] = ""
+            cnt, exc_cnt = stat_snapshot(obsc, names[key]) if cfg["stats"] \
+                else (0, 0)
+            events.append(dict(op=names[key], stats=bool(cfg["stats"]),
+                               bare=b, obs=o, cnt=cnt, exc_cnt=exc_cnt,
+                               raw_req="", wire_req="", raw_reply="",
+                               wire_reply="", pw_hits=0))
+            info.append(dict(op="mock:" + key + "." + names[key],
+                             response="nested", cfg=cfg))
+    finally:
+        ob.close()
+    return events, info
 
 
 def pw_hits(texts):
@@ -536,6 +646,17 @@ def run(ctx):
             cells = [(o, r) for o in ops for r in RESPONSES]
         ctx.rng.shuffle(cells)
         hists.append(run_cell_history(ctx, cfg, cells, wd, i))
+    # nested operations (provider-issued) under recorder / logging / statistics
+    for j, cfg in enumerate(
+            [dict(logger="none", detail="all", recorder=True, stats=False,
+                  debug=False),
+             dict(logger="all", detail="all", recorder=True, stats=True,
+                  debug=False),
+             dict(logger="api", detail="summary", recorder=False, stats=True,
+                  debug=False),
+             dict(logger="http", detail=10, recorder=True, stats=False,
+                  debug=True)]):
+        hists.append(run_nested_history(cfg, wd, 9000 + j))
     verdicts = ctx.validate_traces("ObserverTrace", "ObserverTrace.cfg",
                                    [h[0] for h in hists])
     pending = [(e, i, v) for (e, i), v in zip(hists, verdicts)]
